@@ -15,7 +15,15 @@
 //	     NDNLPLinkService over an in-memory transport of the face's scope (fw/face verif hooks of C10),
 //	     whose dispatchInterest / dispatchData queue it into the thread; without "ls" the harness
 //	     builds defn.Pkt itself.  Outgoing packets are recorded by the fake faces in both modes.
-//	face <id> <L|N> <p2p|multi|adhoc>                        => ok
+//	face <id> <L|N|tcp4:ADDR|tcp6:ADDR> <p2p|multi|adhoc>    => ok
+//	     tcp4:/tcp6: = the scope of the face is whatever the REAL unicast TCP transport, constructed
+//	     for that remote address by face.MakeUnicastTCPTransport (no socket is opened), says; in ls
+//	     mode that transport object is also the transport of the ingress link service
+//	scope <tcp4|tcp6|tcpa|udp4|udp6|unix> <ADDR>             => L | N | U | err
+//	     scope classification by the real transport constructors: tcp4/tcp6 MakeUnicastTCPTransport;
+//	     tcpa AcceptUnicastTCPTransport over a real loopback connection; udp4/udp6
+//	     MakeUnicastUDPTransport (loopback addresses only: it connects a socket); unix
+//	     MakeUnixStreamTransport over a socketpair.  err = the constructor refused / no socket
 //	rmface <id>                                              => ok
 //	fib <name> <face> <cost> | unfib <name> <face> | clrfib <name>   => ok
 //	strat <name> <best|multi> | unstrat <name>               => ok
@@ -36,7 +44,9 @@ import (
 	"bufio"
 	"encoding/binary"
 	"fmt"
+	"net"
 	"os"
+	"syscall"
 	"reflect"
 	"sort"
 	"strconv"
@@ -358,6 +368,101 @@ var stratName = map[string]string{
 	"multi": "/localhost/nfd/strategy/multicast/v=1",
 }
 
+func scopeText(s defn.Scope) string {
+	switch s {
+	case defn.Local:
+		return "L"
+	case defn.NonLocal:
+		return "N"
+	}
+	return "U"
+}
+
+// tcpTransport constructs the real outgoing unicast TCP transport for a remote address (no socket).
+func tcpTransport(kind, addr string) *face.UnicastTCPTransport {
+	v := 4
+	if kind == "tcp6" {
+		v = 6
+	}
+	t, err := face.MakeUnicastTCPTransport(defn.MakeTCPFaceURI(v, addr, 6363), nil, face.PersistencyPersistent)
+	if err != nil || t == nil {
+		return nil
+	}
+	return t
+}
+
+// classify runs one real transport constructor and reports the scope it assigned.
+func classify(kind, addr string) string {
+	switch kind {
+	case "tcp4", "tcp6":
+		t := tcpTransport(kind, addr)
+		if t == nil {
+			return "err"
+		}
+		return scopeText(t.Scope())
+	case "tcpa":
+		ln, err := net.Listen("tcp", net.JoinHostPort(addr, "0"))
+		if err != nil {
+			return "err"
+		}
+		defer ln.Close()
+		type res struct {
+			c net.Conn
+			e error
+		}
+		ch := make(chan res, 1)
+		go func() { c, e := ln.Accept(); ch <- res{c, e} }()
+		c, err := net.Dial("tcp", ln.Addr().String())
+		if err != nil {
+			return "err"
+		}
+		defer c.Close()
+		r := <-ch
+		if r.e != nil {
+			return "err"
+		}
+		defer r.c.Close()
+		t, err := face.AcceptUnicastTCPTransport(r.c, nil, face.PersistencyOnDemand)
+		if err != nil || t == nil {
+			return "err"
+		}
+		return scopeText(t.Scope())
+	case "udp4", "udp6":
+		v := 4
+		if kind == "udp6" {
+			v = 6
+		}
+		if ip := net.ParseIP(addr); ip == nil || !ip.IsLoopback() {
+			return "err" // never connect a socket to a non-loopback address
+		}
+		t, err := face.MakeUnicastUDPTransport(defn.MakeUDPFaceURI(v, addr, 6363), nil, face.PersistencyPersistent)
+		if err != nil || t == nil {
+			return "err"
+		}
+		defer t.Close()
+		return scopeText(t.Scope())
+	case "unix":
+		fds, err := syscall.Socketpair(syscall.AF_UNIX, syscall.SOCK_STREAM, 0)
+		if err != nil {
+			return "err"
+		}
+		f0, f1 := os.NewFile(uintptr(fds[0]), "a"), os.NewFile(uintptr(fds[1]), "b")
+		defer f0.Close()
+		defer f1.Close()
+		c, err := net.FileConn(f0)
+		if err != nil {
+			return "err"
+		}
+		defer c.Close()
+		t, err := face.MakeUnixStreamTransport(defn.MakeFDFaceURI(fds[0]), defn.MakeUnixFaceURI(addr), c)
+		if err != nil || t == nil {
+			return "err"
+		}
+		return scopeText(t.Scope())
+	}
+	return "bad-op"
+}
+
 // Exec runs one operation against the real code.
 func Exec(op string) string {
 	f := common.Fields(op)
@@ -367,14 +472,23 @@ func Exec(op string) string {
 		}
 		return newHistory(f)
 	}
+	if f[0] == "scope" && len(f) == 3 {
+		return classify(f[1], f[2])
+	}
 	if th == nil {
 		return "skip"
 	}
 	switch f[0] {
 	case "face":
 		ff := &fakeFace{id: common.Atou(f[1]), scope: defn.NonLocal}
+		var realT *face.UnicastTCPTransport
 		if f[2] == "L" {
 			ff.scope = defn.Local
+		} else if strings.HasPrefix(f[2], "tcp4:") || strings.HasPrefix(f[2], "tcp6:") {
+			if realT = tcpTransport(f[2][:4], f[2][5:]); realT == nil {
+				return "err"
+			}
+			ff.scope = realT.Scope()
 		}
 		switch f[3] {
 		case "multi":
@@ -389,7 +503,12 @@ func Exec(op string) string {
 			// the ingress side of the face: real link service over an in-memory transport of that scope
 			opts := face.MakeNDNLPLinkServiceOptions()
 			opts.IsConsumerControlledForwardingEnabled = true
-			l := face.MakeNDNLPLinkService(face.VerifNewTransport(8800, ff.scope), opts)
+			var l *face.NDNLPLinkService
+			if realT != nil {
+				l = face.MakeNDNLPLinkService(realT, opts)
+			} else {
+				l = face.MakeNDNLPLinkService(face.VerifNewTransport(8800, ff.scope), opts)
+			}
 			l.SetFaceID(ff.id)
 			lsFaces[ff.id] = l
 		}
